@@ -327,6 +327,11 @@ var witnesses = []fw.Witness{
 		}
 		return ""
 	}},
+	{Prop: "C05", Name: "ranger-behind-interface", Run: func() string {
+		v := jet.VarMap{}
+		v.Set("xs", []interface{}{&c05structR{items: []string{"a"}}, c05sliceR{1, 5}, c05sliceR{0, 0}})
+		return wout(wone(`{{range xs}}{{range v := .}}<{{v}}>{{else}}E{{end}};{{end}}`, v, nil), "<a>;<5>;E;")
+	}},
 }
 
 func init() { fw.RegisterWitnesses(witnesses) }
